@@ -242,6 +242,12 @@ func run(c *runner.Ctx) {
 				sts = append(sts, churn(r))
 			}
 		}
+		if !defaultMode && cf.name == "LRU(512)" {
+			// the package default size: 1024..1027 evictions before the sequence (its rebuild period is 2*512+2)
+			for r := 1024; r <= 1027; r++ {
+				sts = append(sts, churn(r))
+			}
+		}
 		for _, st := range sts {
 			c.Space(fmt.Sprintf("%s:%s/%s", c.Mode, cf.name, st.name))
 			d2 := depth
@@ -250,6 +256,9 @@ func run(c *runner.Ctx) {
 			}
 			if strings.HasPrefix(st.name, "churn-") && cf.cap == 8 {
 				d2 = depth - 1
+			}
+			if strings.HasPrefix(st.name, "churn-") && cf.cap == 512 {
+				d2 = depth - 2 // every sequence re-validates ~1540 filler types first
 			}
 			enum.Seqs(len(all), d2, func(seq []int) {
 				if !c.Take() {
@@ -446,7 +455,7 @@ func main() {
 		Property:  "C08",
 		Technique: "explicit enumeration of all call histories up to a depth x cache configurations x start states on the real code vs pure-function model (cross-configuration differential)",
 		Rule: "calls = 4 types (nested, time.Time fields, a pair of mutually recursive types) x tag names {a,b} (different rules per tag on the same fields; the value violates the a-rules on one field and the b-rules on another) x {tag rules, per-call override of the shared field}; " +
-			"all sequences of length d (3 quick, 4 thorough) from 3 start states (cold, warmed under the other tag / with overrides, warmed then flushed by capacity+1 filler types) on 8 cache configurations switched in-process, plus, for the bounded LRUs of capacity 1,2,3,8, the start states churn-r (r = 1..2*capacity+3 evictions before the sequence: every position of the LRU's internal map rebuild relative to the next d calls) " +
+			"all sequences of length d (3 quick, 4 thorough) from 3 start states (cold, warmed under the other tag / with overrides, warmed then flushed by capacity+1 filler types) on 8 cache configurations switched in-process, plus, for the bounded LRUs of capacity 1,2,3,8, the start states churn-r (r = 1..2*capacity+3 evictions before the sequence, and 1024..1027 for the default-size LRU(512): every position of the LRU's internal map rebuild relative to the next d calls) " +
 			"and on the untouched package default (separate worker set); and every depth-3 sequence on LRU(1), LRU(2), LRU(512), sync.Map with one (thorough: one or two) of its cache loads answered with a miss although the entry is present (the answer a concurrent eviction produces); and the history (validate, register a global function for a name the type uses, validate) on every configuration; every call compared with walk(type, tag, override, value); states = (configuration, per-type last tag) ; non-trivial = a type re-validated under the other tag",
 		Assumptions: []string{"walk model internal/walk", "the global cache is replaced through the public SetStructTypeCache only"},
 		Run:         run,
